@@ -215,6 +215,15 @@ impl Pase {
             self.session_timeout.is_some(),
         )
     }
+
+    /// The in-progress marker is present *and* has not expired yet, i.e. it still makes
+    /// `update_session_timeout` refuse another initiator.
+    pub fn verif_session_timeout_live(&self) -> bool {
+        self.session_timeout
+            .as_ref()
+            .map(|sd| !sd.is_sess_expired())
+            .unwrap_or(false)
+    }
 }
 
 /// Minimal commissioning window timeout in seconds, as per the Matter Core Spec
